@@ -25,7 +25,7 @@ if VERIF not in sys.path:
 
 import z3  # noqa: E402
 
-from . import frontend, smt, verify, replay, re_model  # noqa: E402
+from . import frontend, smt, verify, replay, re_model, regex  # noqa: E402,F401  (regex: assumed contract of Pattern.match on concrete patterns)
 from .api import Registry, Module, Contract  # noqa: E402
 
 
@@ -85,6 +85,8 @@ def build_registry(mods):
         for f, mm in m.models.items():
             reg.scoped_models.setdefault(m.prop, {})[f] = mm
             reg.__dict__.setdefault('module_models', {}).setdefault(m, {})[f] = mm
+        for f, ab in getattr(m, 'abstractions', {}).items():
+            reg.abstractions[f] = ab
         for ls in m.loops:
             # keyed per module: the spec of the module whose contract is being verified is preferred (loops.find_spec)
             reg.loops[(ls.qname, ls.ordinal, m.prop)] = ls
@@ -93,6 +95,11 @@ def build_registry(mods):
     reg.models[common.forall_range] = _models.q_forall
     reg.models[common.exists_range] = _models.q_exists
     reg.models[common.is_opaque] = _models.m_is_opaque
+    if hasattr(common, 'is_item'):
+        reg.models[common.is_item] = _models.m_is_item
+    for _n in ('conj', 'slot', 'snapshot_lists', 'all_keys'):
+        if hasattr(common, _n):
+            reg.models[getattr(common, _n)] = getattr(_models, 'm_' + _n)
     from . import texts as _texts
     reg.models[common.prefix_join] = _texts.m_prefix_join
     reg.models[common.peek] = _texts.m_peek
